@@ -69,8 +69,15 @@ func (g *gen) genC07impl() {
 			ops = append(ops, op)
 		case n < 56 && !frozen[set]:
 			ops = append(ops, Op{ID: g.id(), Kind: opNew, Set: set, Recv: g.maybeName(names), Name: fmt.Sprintf("N%d", i)})
-		case n < 64:
+		case n < 60:
 			ops = append(ops, g.readOp(set, names))
+		case n < 64:
+			// a function registered on one set only, and a text that uses it
+			fn := fmt.Sprintf("fx%d", g.r.Intn(2))
+			ops = append(ops, Op{ID: g.id(), Kind: opFuncs, Set: set, Recv: g.maybeName(names), Name: fn})
+			other := sets[g.r.Intn(len(sets))]
+			ops = append(ops, Op{ID: g.id(), Kind: opParse, Set: other, Recv: g.maybeName(names), Text: defineText(fmt.Sprintf("U%d", i), "<p>{{"+fn+"}}</p>")})
+			names = append(names, fmt.Sprintf("U%d", i))
 		default:
 			if !late && g.chance(0.5) {
 				ops = append(ops, g.c07parse(set, names))
